@@ -43,6 +43,14 @@ def CHACHA_RULES(kind):
     return r
 
 
+TF_FUNCS = "threefish_cipher::{mix, inv_mix, read_u64v_le, write_u64v_le, Threefish{256,512,1024}::{with_tweak, new, encrypt_block, decrypt_block}}"
+TF_RULES = [
+    (r"c09_(mix_contract|key_schedule|le_io)", dict(filter="c09_", props=["C09", "C10", "C05"], tier="quick", funcs=TF_FUNCS)),
+    (r"c09_encrypt_wiring", dict(filter="c09_", props=["C09", "C05"], tier="quick", funcs=TF_FUNCS, timeout=2400)),
+    (r"c10_decrypt_wiring", dict(filter="c10_", props=["C10"], tier="quick", funcs=TF_FUNCS, timeout=2400)),
+    (r"c10_round_inverse_lemma", dict(filter="c10_", props=["C10"], tier="quick", funcs="spec-level: spec/threefish.rs round_core/inv_core", timeout=1800)),
+]
+
 UNITS = {
     "ppv_x86": dict(
         template="kani/ppv", crate="ppv_h", zflags=["stubbing"], cargo_args=[], rustflags=RF_ZC,
@@ -72,6 +80,16 @@ UNITS = {
         backend_note="no_simd build: portable backend",
         rules=CHACHA_RULES("generic"),
     ),
+    "threefish": dict(
+        template="kani/threefish", crate="threefish_h", zflags=["stubbing"], cargo_args=[], rustflags=RF_HOOK,
+        backend_note="default build (rounds unrolled by unroll8!)",
+        rules=TF_RULES,
+    ),
+    "threefish_no_unroll": dict(
+        template="kani/threefish", crate="threefish_h", zflags=["stubbing"], cargo_args=["--features", "no_unroll"], rustflags=RF_HOOK,
+        backend_note="feature no_unroll (rounds in for loops)",
+        rules=TF_RULES,
+    ),
     "ppvnull": dict(
         template="kani/ppvnull", crate="ppvnull_h", zflags=[], cargo_args=[], rustflags=RF_ZC,
         backend_note="ppv-null emulation types",
@@ -89,12 +107,20 @@ PROP_UNITS = {
     "C15": ["chacha_x86", "chacha_generic"],
     "C02": ["chacha_x86", "chacha_generic"],
     "C11": ["chacha_x86", "chacha_generic"],
+    "C09": ["threefish", "threefish_no_unroll"],
+    "C10": ["threefish", "threefish_no_unroll"],
+}
+
+PROP_VERUS = {
+    "C10": [dict(file="verus/compose_inverse.rs", expect_min=3, tier="quick",
+                 funcs="spec-level induction: undo_rounds(do_rounds(v)) == v and do_rounds(undo_rounds(w)) == w from the per-round inverse lemmas")],
 }
 
 PROP_LEVEL = {
     "C12": "proof",
     "C13": "proof",
     "C19": "proof",
+    "C09": "proof", "C10": "proof",
     "C01": "proof", "C14": "proof", "C15": "proof", "C02": "proof", "C11": "proof",
 }
 
